@@ -258,7 +258,7 @@ func crashSig(tail string) string {
 					break
 				}
 			}
-			return "crash:" + msg + "@" + site
+			return strings.ReplaceAll("crash:"+msg+"@"+site, " ", "_")
 		}
 		if strings.Contains(ln, "SIGQUIT") {
 			kind = "crash:watchdog"
